@@ -856,3 +856,7 @@ add("b23", ["C20"], (D, """        # and put double quotes around all this
         return '"{}"'.format(result)""", """        return '"' + result + '"'"""), expect='silent')
 add("b24", ["C20"], (P, """        result = ""
         result += "{\\n\"""", """        result = "{\\n\""""), expect='silent')
+
+# ------------------------------------------------------------------ extra
+add("m02i", ["C02", "C14"], (W, "                value = await job.co_run()\n", "                value = await job.co_run()\n                if value is None:\n                    value = await job.co_run()\n"),
+    rules=["R02.4", "R14.2w"], note="retry when the body returns None")
